@@ -9,6 +9,7 @@
 #include <thread>
 #include <memory>
 #include <unistd.h>
+#include <sys/wait.h>
 
 using namespace verif;
 
@@ -60,8 +61,9 @@ int main(int argc, char **argv)
         for (auto &e : l.GetArray()) q.props.push_back({{e[0].GetUint(), e[1].GetUint(), e[2].GetUint()}});
         qs.push_back(q);
       }
-  // single-thread reference
-  std::vector<std::vector<double>> ref;
+  // The single-thread reference is computed in a process of its own (a child forked before this process has asked the
+  // library anything): the threads below are then the FIRST to query this process's world, released together, so that state
+  // which is set up lazily by the first query (function-local statics, caches) is set up under concurrency.
   auto ask = [&world](const Q &q)
   {
     try
@@ -73,13 +75,48 @@ int main(int argc, char **argv)
         return std::vector<double> {{-12345.678}};       // a query that throws must throw for every thread alike
       }
   };
-  for (auto &q : qs) ref.push_back(ask(q));
+  std::vector<std::vector<double>> ref;
+  {
+    const std::string refpath = std::string(argv[4]) + "/threads_ref_" + std::to_string(getpid()) + ".bin";
+    const pid_t child = fork();
+    if (child == 0)
+      {
+        std::ofstream o(refpath, std::ios::binary);
+        for (auto &q : qs)
+          {
+            const std::vector<double> v = ask(q);
+            const unsigned long n = v.size();
+            o.write(reinterpret_cast<const char *>(&n), sizeof n);
+            o.write(reinterpret_cast<const char *>(v.data()), static_cast<std::streamsize>(n * sizeof(double)));
+          }
+        o.close();
+        _exit(0);
+      }
+    int status = 0;
+    if (child < 0 || waitpid(child, &status, 0) != child || !WIFEXITED(status) || WEXITSTATUS(status) != 0)
+      { std::cerr << "reference process failed\n"; return 2; }
+    std::ifstream i(refpath, std::ios::binary);
+    for (size_t k = 0; k < qs.size(); ++k)
+      {
+        unsigned long n = 0;
+        i.read(reinterpret_cast<char *>(&n), sizeof n);
+        std::vector<double> v(n);
+        i.read(reinterpret_cast<char *>(v.data()), static_cast<std::streamsize>(n * sizeof(double)));
+        ref.push_back(v);
+      }
+    if (!i) { std::cerr << "reference file short\n"; return 2; }
+    unlink(refpath.c_str());
+  }
 
   std::atomic<long> mismatches(0), done(0);
+  std::atomic<unsigned> ready(0);
+  std::atomic<bool> go(false);
   std::vector<std::thread> ts;
   for (unsigned t = 0; t < nthreads; ++t)
     ts.emplace_back([&, t]()
     {
+      ++ready;
+      while (!go.load()) { }                      // released together
       for (int r = 0; r < rounds; ++r)
         for (size_t k = 0; k < qs.size(); ++k)
           {
@@ -91,7 +128,17 @@ int main(int argc, char **argv)
             ++done;
           }
     });
+  while (ready.load() < nthreads) { }
+  go.store(true);
   for (auto &t : ts) t.join();
+  // afterwards the same process asked by one thread must still give the reference answers
+  for (size_t k = 0; k < qs.size(); ++k)
+    {
+      const std::vector<double> out = ask(qs[k]);
+      bool same = out.size() == ref[k].size();
+      for (size_t j = 0; same && j < out.size(); ++j) same = bits(out[j]) == bits(ref[k][j]);
+      if (!same) ++mismatches;
+    }
   std::cout << "{\"threads\":" << nthreads << ",\"queries\":" << done.load() << ",\"distinct_queries\":" << qs.size()
             << ",\"mismatches\":" << mismatches.load() << "}" << std::endl;
   return mismatches.load() ? 1 : 0;
